@@ -3,8 +3,10 @@
 Theorems: coq/C13/Properties_C13.v (first-arm law of the match loop, whole-name comparison, no-arm error,
 payload channel round-trip, transport invariants over arbitrary step lists, sequences of match functions
 (history freedom), ? chains of any length, try/checked classification, freshness of the Variable behind Ok, last-write-wins
-for re-assignment, history freedom of sequences; the defects of the pinned code as `_refuted` witnesses).
-Tie: six families of skeleton programs - (A) a value is constructed, transported (declaration from
+for re-assignment, history freedom of sequences; struct / enum payloads (associated_value) at every depth: round trip, preservation,
+match on nested values; the declaration that runs again in one scope (erase before emplace), history freedom of loop bodies, try / ? in
+loops; the defects of the pinned code as `_refuted` witnesses).
+Tie: nine families of skeleton programs - (A) a value is constructed, transported (declaration from
 variable/call, assignment, parameter passing, return) and consumed by match / .variant / .value;
 (M) several values sent through match statements packaged as functions (void / returning from the arm /
 expression-bodied arms / in a loop / nested / inline), variant names with prefix, suffix and case relations,
@@ -12,7 +14,10 @@ names shared by two enums; (Q) chains of functions propagating with `?` applied 
 (T) core expressions - integer-valued and string-valued, also with the failing operation inside a called function - under
 try/checked in six statement contexts; (R) ONE variable / struct member assigned again and again with values of changing
 variant and payload kind; (S) several A/Q/T programs as functions of ONE program, called in any order with fresh operands
-(state carried between evaluations) - are printed as Cb programs and run on the real `main`; stdout transcript and error class must
+(state carried between evaluations); (L) the statements of family A as a LOOP BODY (for / while / written out several times) executed once per
+value, the values being of any payload kind - int, long, string, none, a struct of scalars, another enum value, nested to depth 3 - and changing
+variant and kind from execution to execution, every declaration meeting the Variable its previous execution left in the scope; (LT) `R r = try e;`
+and (LQ) `f(i)?` as loop bodies - are printed as Cb programs and run on the real `main`; stdout transcript and error class must
 equal the extracted Mech model for EVERY program (conforming or not); Mech vs Spec classifies.
 classify_runtime_error/build_result_err are additionally compared byte for byte on random messages
 through a leaf driver that includes the repository's error_handling.cpp.
@@ -47,6 +52,15 @@ META = {
             "Ok is read back correctly iff the kept string channel is empty); a variable or struct member assigned again and again holds exactly the "
             "last value whatever it held before; a program made of several construct/transport/match, `?`-chain and try/checked parts called in any "
             "order with fresh operands prints, call by call, what each part prints on its own (nothing is carried between evaluations); "
+            "payloads that are a struct of scalars or another enum value (Option<Result<int,string>>, Option<P2>, user and generic enums carrying "
+            "structs / enums, depth 3) are built, copied, passed, returned and matched exactly: round trip for every depth, preservation by every transport "
+            "step sound for the shape, the match statement on a built value equals the property's own match for ANY outer arm list and the inner matches the "
+            "declared types dictate, and the nested model is the scalar model on values without associated_value; a declaration executed again in the same "
+            "scope (loop body) stores exactly the new value BECAUSE the scope entry is erased first - without the erase the new value is stored correctly "
+            "iff the kept associated_value is the new one (the seeded class of change, and only through struct / enum payloads); an execution of a loop "
+            "body prints and leaves in the outer variable a function of that variable and of its own value only (history freedom for every program), "
+            "conforming loop programs equal the Spec for every type, depth, number of executions and pipeline; `R r = try e;` and `f(i)?` as loop bodies "
+            "equal the Spec (first failure ends the function with that very value); "
             "the defects of the pinned code are `_refuted` witnesses (known findings). The model is tied to the "
             "code on every run: exhaustive arm orders/wildcards for 1-5 variants, every ordered pair of 18 sets of related variant names "
             "(prefix, suffix, infix, case, Option/Result's own names, one-letter, digits, underscores) under 5 arm lists with rotating binding form / "
@@ -57,12 +71,20 @@ META = {
             "boundary payloads, string-valued operands of try/checked, every variant sequence of length <= 3 assigned to one variable / struct member "
             "(6 types, 5 ways of assignment), every ordered pair of 38 producer classes (try/checked int/string ok/err, ? chains, constructors of "
             "Result/Option/user/generic enums through declaration, call, parameter, return) as ONE program calling x, y, x, one try site / one ? chain "
-            "called 6-8 times with alternating outcomes, plus random deeper cases, are printed as Cb programs and run on the real binary; transcript and "
+            "called 6-8 times with alternating outcomes, loop programs (for / while / written out; declaration statement per execution or ONE statement "
+            "serving several executions; constructor argument a variable or a call; the source struct / inner enum variable overwritten after construction): "
+            "every ordered pair of the candidate values of 12 outer types executed x, y, x' by one body, 22 pipelines (15 conforming, 7 defect-bound: "
+            "declaration from variable / call, assignment to a fresh and to an outer variable, parameters, return of a variable / of the constructor, "
+            "constructor scrutinee) x 12 types, try / checked sites and `f(i)?` in every context executed 2-4 times with alternating outcomes, "
+            "plus random deeper cases, are printed as Cb programs and run on the real binary; transcript and "
             "error class must equal the extracted model for every program, including the defect shapes; classify_runtime_error "
             "is compared on random messages through a leaf driver.",
     "note": "Trusted: Coq kernel (vm_compute for the refutation witnesses), no axioms (Print Assumptions: closed); extraction via "
             "ExtrOcamlBasic+ExtrOcamlString; the model is hand-written and tied by differential testing only; the Python printer "
-            "of skeletons to Cb text. Not modelled: struct/enum-typed payloads (associated_value), await?, member?, "
+            "of skeletons to Cb text. Not modelled: struct members that are themselves structs or arrays, enum values with nested payloads stored in struct "
+            "members or sent through `?` / try (recorded findings / rejected by the interpreter), `.value` on nested payloads, the ordinal a payload-less inner enum value "
+            "leaves in the integer channel, binding variables (they outlive the match: programs bind one name to one kind of Variable, decided by the extracted l_kinds), "
+            "await?, member?, "
             "enum values in struct members beyond `bx.e = <variable>; T x = bx.e;` (three recorded findings), string expressions other than variables/literals as "
             "arguments of string parameters are rejected by the interpreter (modelled as the TypeCastError they raise), "
             "`?` inside println arguments and call arguments and binding-name reuse across matches of different payload kinds / binding names equal "
@@ -821,13 +843,476 @@ def s_normalise(c):
     return dict(c, items=items)
 
 
+# ------------------------------------------------------------------ families L / LT / LQ (nested payloads, statements executed again in one scope)
+# nested type: {"k":"int"|"long"|"string"} | {"k":"rec","name":N,"fields":[[fname,"int"|"long"|"string"]]} | {"k":"opt","t":T} |
+#              {"k":"res","t":T,"e":T} | {"k":"usr","name":N,"vars":[[n1,T],[n2,T],[n3,T],[n4,None]]}
+# nested value: ["i",int] | ["s",text] | ["r",[scalar values]] | ["e",variant,None|value]
+# case L: {"fam":"L","type":T,"src","steps":[["dv"]|["dc"]|["pa"]|["av",[variant,payload]]|["ac",..]|["as",..]],"final","arms",
+#          "vals":[value],"loop":"for"|"while"|"seq","merge":bool,"argcall":bool}
+def nt_name(T):
+    k = T["k"]
+    if k in ("int", "long", "string"):
+        return k
+    if k in ("rec", "usr"):
+        return T["name"]
+
+    def arg(x):
+        n = nt_name(x)
+        return n + " " if n.endswith(">") else n
+    if k == "opt":
+        return "Option<%s>" % arg(T["t"])
+    if k == "gen":
+        return "%s<%s>" % (T["name"], arg(T["t"]))
+    return "Result<%s, %s>" % (nt_name(T["t"]), arg(T["e"]))
+
+
+def nt_variants(T):
+    k = T["k"]
+    if k == "opt":
+        return [("Some", T["t"]), ("None", None)]
+    if k == "res":
+        return [("Ok", T["t"]), ("Err", T["e"])]
+    if k == "gen":
+        return [(T["n1"], T["t"]), (T["n2"], None)]
+    if k == "usr":
+        return [(n, t) for n, t in T["vars"]]
+    return []
+
+
+def nt_ser(T):
+    k = T["k"]
+    if k in ("int", "long"):
+        return "I"
+    if k == "string":
+        return "S"
+    if k == "rec":
+        return "R"
+    if k == "opt":
+        return "O " + nt_ser(T["t"])
+    if k == "gen":
+        return "G %s %s %s" % (hx(T["n1"]), nt_ser(T["t"]), hx(T["n2"]))
+    if k == "res":
+        return "E %s %s" % (nt_ser(T["t"]), nt_ser(T["e"]))
+    v = T["vars"]
+    return "U %s %s %s %s %s %s %s" % (hx(v[0][0]), nt_ser(v[0][1]), hx(v[1][0]), nt_ser(v[1][1]), hx(v[2][0]), nt_ser(v[2][1]), hx(v[3][0]))
+
+
+def nt_decls(T, seen, out):
+    """struct and enum declarations the type needs, innermost first"""
+    k = T["k"]
+    if k == "rec":
+        if T["name"] not in seen:
+            seen.add(T["name"])
+            out.append("struct %s { %s };" % (T["name"], " ".join("%s %s;" % (ft, fn) for fn, ft in T["fields"])))
+    elif k == "opt":
+        nt_decls(T["t"], seen, out)
+    elif k == "gen":
+        nt_decls(T["t"], seen, out)
+        if T["name"] not in seen:
+            seen.add(T["name"])
+            out.append("enum %s<T> { %s(T), %s };" % (T["name"], T["n1"], T["n2"]))
+    elif k == "res":
+        nt_decls(T["t"], seen, out)
+        nt_decls(T["e"], seen, out)
+    elif k == "usr":
+        for n, t in T["vars"]:
+            if t is not None:
+                nt_decls(t, seen, out)
+        if T["name"] not in seen:
+            seen.add(T["name"])
+            out.append("enum %s { %s };" % (T["name"], ", ".join(n if t is None else "%s(%s)" % (n, nt_name(t)) for n, t in T["vars"])))
+
+
+def nv_ser(v):
+    if v[0] == "i":
+        return "i%d" % int(v[1])
+    if v[0] == "s":
+        return "s" + hx(v[1])
+    if v[0] == "r":
+        return " ".join(["r%d" % len(v[1])] + [nv_ser(f) for f in v[1]])
+    return "e%s %s" % (hx(v[1]), "-" if v[2] is None else "+ " + nv_ser(v[2]))
+
+
+def nv_pl(p):
+    """a scalar nested value as a family-A payload"""
+    return ["none"] if p is None else (["int", str(p[1])] if p[0] == "i" else ["str", p[1]])
+
+
+def scal_lit(v):
+    return int_lit(v[1]) if v[0] == "i" else '"%s"' % v[1]
+
+
+def l_steps_ser(steps):
+    out = []
+    for s in steps:
+        out.append(s[0] if len(s) == 1 else "%s:%s:%s" % (s[0], hx(s[1][0]), pl_ser(s[1][1])))
+    return ",".join(out) or "-"
+
+
+def l_winit(c):
+    """initial value [variant, payload] of the outer variable w (`T w = T::D(q);` before the loop): given, or the first variant
+    of the type that carries a scalar or nothing"""
+    if c.get("winit"):
+        return c["winit"]
+    for n, t in nt_variants(c["type"]):
+        if t is None:
+            return [n, ["none"]]
+        if t["k"] in ("int", "long", "string"):
+            return [n, ["int", "1"] if t["k"] != "string" else ["str", "w"]]
+    return [nt_variants(c["type"])[0][0], ["none"]]
+
+
+def line_l(c):
+    w = l_winit(c)
+    f = ["L", hx(nt_name(c["type"])), nt_ser(c["type"]), c["src"], l_steps_ser(c["steps"]), c["final"], arms_ser(c["arms"]),
+         ";".join(nv_ser(v) for v in c["vals"]) or "-", "%s:%s" % (hx(w[0]), pl_ser(w[1]))]
+    if c.get("erase") is False:          # only used by hand (the model of the change the loop theorems exclude)
+        f.append("0")
+    return "\t".join(f)
+
+
+def l_prep(T, v, tag, argcall, funcs):
+    """statements that build the value v of type T in a variable, and the expression naming it: scalars are literals, a
+    struct is declared and filled member by member, an enum value is declared from its own constructor (recursively).
+    argcall: the struct / enum argument is written as a call of a function returning it."""
+    k = T["k"]
+    if k in ("int", "long", "string"):
+        return [], scal_lit(v)
+    if k == "rec":
+        name = "q" + tag
+        st = ["%s %s;" % (T["name"], name)] + ["%s.%s = %s;" % (name, fn, scal_lit(fv)) for (fn, ft), fv in zip(T["fields"], v[1])]
+        if argcall:
+            fn = "mkq" + tag
+            funcs.append("%s %s() { %s return %s; }" % (T["name"], fn, " ".join(st), name))
+            return [], fn + "()"
+        return st, name
+    # an enum value
+    pt = dict(nt_variants(T)).get(v[1])
+    tn = nt_name(T)
+    name = "n" + tag
+    if v[2] is None or pt is None:
+        st, e = [], "%s::%s" % (tn, v[1])
+    else:
+        st, a = l_prep(pt, v[2], tag + "x", False, funcs)
+        e = "%s::%s(%s)" % (tn, v[1], a)
+    st = st + ["%s %s = %s;" % (tn, name, e)]
+    if argcall:
+        fn = "mkn" + tag
+        funcs.append("%s %s() { %s return %s; }" % (tn, fn, " ".join(st), name))
+        return [], fn + "()"
+    return st, name
+
+
+def l_cons(T, v, tag, argcall, funcs, scalar_var=False):
+    """(prep statements, constructor expression) for the top-level value v = ["e", variant, payload] of type T;
+    scalar_var: a scalar payload is first stored in a variable (so that ONE constructor statement serves several executions)"""
+    pt = dict(nt_variants(T)).get(v[1])
+    tn = nt_name(T)
+    if v[2] is None or pt is None:
+        return [], "%s::%s" % (tn, v[1])
+    st, a = l_prep(pt, v[2], tag, argcall, funcs)
+    if scalar_var and pt["k"] in ("int", "long", "string"):
+        st, a = ["%s x%s = %s;" % (pt["k"], tag, a)], "x" + tag
+    return st, "%s::%s(%s)" % (tn, v[1], a)
+
+
+def l_body(T, path, b):
+    """the body of an arm whose binding b has the declared type T (mirrors ModelNest.consume)"""
+    lab = "arm " + " in ".join(str(x) for x in path)
+    if T is None:
+        return 'println("%s");' % lab
+    k = T["k"]
+    if k in ("int", "long", "string"):
+        return 'println("%s", %s);' % (lab, b)
+    if k == "rec":
+        return 'println("%s", %s);' % (lab, ", ".join("%s.%s" % (b, fn) for fn, ft in T["fields"]))
+    arms = []
+    for j, (n, t) in enumerate(nt_variants(T)):
+        if t is None:
+            arms.append('%s => { %s }' % (n, l_body(None, path + [j], None)))
+        else:
+            bj = "%s_%d" % (b, j)
+            arms.append('%s(%s) => { %s }' % (n, bj, l_body(t, path + [j], bj)))
+    return "match (%s) { %s }" % (b, " ".join(arms))
+
+
+def l_match(T, scr, arms, sfx=""):
+    vt = dict(nt_variants(T))
+    lines = ["match (%s) {" % scr]
+    for i, a in enumerate(arms):
+        if a[0] == "w":
+            lines.append('    _ => { println("arm %d"); }' % i)
+        elif a[2] == "n":
+            lines.append('    %s => { println("arm %d"); }' % (a[1], i))
+        elif a[2] == "u":
+            lines.append('    %s(_) => { println("arm %d"); }' % (a[1], i))
+        else:
+            b = "b%d%s" % (i, sfx)
+            lines.append("    %s(%s) => { %s }" % (a[1], b, l_body(vt.get(a[1]) or {"k": "long"}, [i], b)))
+    lines.append("}")
+    return lines
+
+
+def cb_l(c):
+    T = c["type"]
+    tn = nt_name(T)
+    vals = c["vals"]
+    n_it = len(vals)
+    loop, merge, argcall = c.get("loop", "for"), c.get("merge", False), c.get("argcall", False)
+    merge = merge and loop != "seq"
+    argcall = argcall and not merge     # a merged declaration statement names a variable that is prepared per execution
+    decls, funcs = [], []
+    nt_decls(T, set(), decls)
+    f = c["final"]
+    direct = f in ("mk", "mkv", "cons")
+    # aux names are shared by the executions that use the same outer variant: their declarations run again, too
+    vidx = {n: j for j, (n, t) in enumerate(nt_variants(T))}
+
+    def tag(k):
+        return ("%d_%d" if argcall else "%d") % ((vidx.get(vals[k][1], 9), k) if argcall else vidx.get(vals[k][1], 9))
+
+    def guarded(k, stmts):
+        """statements of execution k only: under `if (i == k)` inside a loop, bare in the written-out form"""
+        if loop == "seq" or not stmts:
+            return list(stmts)
+        return ["if (i == %d) { %s }" % (k, " ".join(stmts))]
+
+    funcs.append("%s idf(%s x) { return x; }" % (tn, tn))
+    for fname, via_var in (("pick", False), ("pickv", True)):
+        if not ((fname == "pick" and (c["src"] == "call" or f == "mk")) or (fname == "pickv" and (c["src"] == "callvar" or f == "mkv"))):
+            continue
+        body = []
+        for k in range(n_it):
+            st, e = l_cons(T, vals[k], tag(k), False, funcs)
+            st = st + (["%s t = %s;" % (tn, e), "return t;"] if via_var else ["return %s;" % e])
+            body.append(("if (i == %d) { %s }" % (k, " ".join(st))) if k < n_it - 1 else " ".join(st))
+        funcs.append("%s %s(int i) { %s }" % (tn, fname, " ".join(body)))
+
+    # the statements after the source - steps, then the consumer; a `pa` step moves the rest into a function
+    fl, cur, n, hn, hdr, cn = [], [], 0, 0, None, "v0"       # cn: the name of the current variable
+    if not direct:
+        for s in c["steps"]:
+            sk = s[0]
+            if sk == "dv":
+                cur.append("%s v%d = %s;" % (tn, n + 1, cn)); n += 1; cn = "v%d" % n
+            elif sk == "dc":
+                cur.append("%s v%d = idf(%s);" % (tn, n + 1, cn)); n += 1; cn = "v%d" % n
+            elif sk in ("av", "ac"):
+                cur.append("%s v%d = %s;" % (tn, n + 1, cons(tn, s[1][0], s[1][1])))
+                cur.append("v%d = %s;" % (n + 1, cn if sk == "av" else "idf(%s)" % cn)); n += 1; cn = "v%d" % n
+            elif sk == "as":
+                cur.append("%s = %s;" % (cn, cons(tn, s[1][0], s[1][1])))
+            elif sk in ("ov", "oc"):          # the variable declared once before the loop
+                cur.append("w = %s;" % (cn if sk == "ov" else "idf(%s)" % cn)); cn = "w"
+            elif sk == "pa":
+                hn += 1
+                cur += ["h%d(%s);" % (hn, cn), 'println("back %d");' % hn]
+                fl.append((hdr, cur))
+                n += 1
+                cn = "v%d" % n
+                hdr, cur = "void h%d(%s %s) {" % (hn, tn, cn), []
+    if f == "obs":
+        cur.append("println(%s.variant);" % cn)
+    elif f == "val":
+        cur.append("println(%s.value);" % cn)
+    elif f in ("var", "call"):
+        cur += l_match(T, cn if f == "var" else "idf(%s)" % cn, c["arms"])
+    if not direct:
+        cur.append('println("after");')
+    fl.append((hdr, cur))
+    tail = fl[0][1]                 # what the looping function does after v0 is declared
+
+    def head(k, ix):
+        """the statements that belong to execution k alone (ix: how the body names the execution - `i` or a literal)"""
+        if f == "cons":
+            st, e = l_cons(T, vals[k], tag(k), False, funcs)
+            return st + l_match(T, e, c["arms"])
+        if c["src"] == "cons":
+            st, e = l_cons(T, vals[k], tag(k), argcall, funcs, scalar_var=merge)
+            return st + ["%s v0 = %s;" % (tn, e)]
+        return []
+
+    def after_decl(k):
+        """mutate: the struct / inner enum variable the constructor argument named is overwritten with another value right
+        after v0 is declared - v0 holds a copy and must not follow"""
+        if not (c.get("mutate") and c["src"] == "cons" and not argcall and not direct):
+            return []
+        v = vals[k]
+        pt = dict(nt_variants(T)).get(v[1])
+        if v[2] is None or pt is None or pt["k"] in ("int", "long", "string"):
+            return []
+        other = next((o for o in nt_values(pt, 17 + k) + nt_values(pt, 23 + k) if o != v[2] and nv_good(o, False)), None)
+        if other is None:
+            return []
+        return l_prep(pt, other, tag(k), False, funcs)[0]
+
+    def shared(ix):
+        """statements every execution runs"""
+        if f in ("mk", "mkv"):
+            return l_match(T, "%s(%s)" % ("pick" if f == "mk" else "pickv", ix), c["arms"]) + ['println("after");']
+        if f == "cons":
+            return ['println("after");']
+        pre = [] if c["src"] == "cons" else ["%s v0 = %s(%s);" % (tn, "pick" if c["src"] == "call" else "pickv", ix)]
+        return pre + tail
+
+    body = []
+    if loop == "seq":
+        for k in range(n_it):
+            body += ['println("it", %d);' % k] + head(k, str(k)) + after_decl(k) + shared(str(k))
+    else:
+        body.append('println("it", i);')
+        if merge and c["src"] == "cons" and not direct:
+            # ONE declaration statement of v0 per outer variant, executed by every execution that uses this variant
+            groups = {}
+            for k in range(n_it):
+                groups.setdefault(vals[k][1], []).append(k)
+            for vname, ks in groups.items():
+                inner, d = [], None
+                for k in ks:
+                    h = head(k, "i")
+                    inner += guarded(k, h[:-1]) if len(ks) > 1 else h[:-1]
+                    d = h[-1]
+                body.append("if (%s) { %s }" % (" || ".join("i == %d" % k for k in ks), " ".join(inner + [d])))
+            for k in range(n_it):
+                body += guarded(k, after_decl(k))
+        else:
+            for k in range(n_it):
+                body += guarded(k, head(k, "i") + after_decl(k))
+        body += shared("i")
+    out = decls + funcs
+    for h, st in reversed(fl[1:]):
+        out += [h] + ["    " + l for l in st] + ["}"]
+    out.append("void main() {")
+    if any(s[0] in ("ov", "oc") for s in c["steps"]) and not direct:
+        w = l_winit(c)
+        out.append("    %s w = %s;" % (tn, cons(tn, w[0], w[1])))
+    if loop == "for":
+        out.append("    for (int i = 0; i < %d; i = i + 1) {" % n_it)
+        out += ["        " + l for l in body]
+        out.append("    }")
+    elif loop == "while":
+        out += ["    int i = 0;", "    while (i < %d) {" % n_it]
+        out += ["        " + l for l in body]
+        out += ["        i = i + 1;", "    }"]
+    else:
+        out += ["    " + l for l in body]
+    out += ['    println("done");', "}"]
+    return "\n".join(out) + "\n"
+
+
+# case LT: {"fam":"LT","checked":bool,"expr":e,"ops":[[a,b,sa,sb]],"loop":..}
+def line_lt(c):
+    return "\t".join(["LT", "1" if c["checked"] else "0", ex_ser(c["expr"]),
+                      ";".join("%d:%d:%s:%s" % (o[0], o[1], hx(o[2]), hx(o[3])) for o in c["ops"]) or "-"])
+
+
+def cb_lt(c):
+    kw = "checked" if c["checked"] else "try"
+    e = c["expr"]
+    st = is_sexpr(e)
+    R = RTS if st else RT
+    if e[0] in ("D0", "D1"):
+        te = "%s %s" % (kw, "*p" if e[0] == "D0" else "*np")
+    elif ex_atom(e) and not (e[0] == "L" and e[1] < 0):
+        te = "%s %s" % (kw, ex_cb(e))
+    else:
+        te = "%s %s" % (kw, ex_cb(e) if ex_cb(e).startswith("(") else "(" + ex_cb(e) + ")")
+    out = list(T_HELPERS) if ex_has_call(e) else []
+    loop = c.get("loop", "for")
+    n_it = len(c["ops"])
+    out.append("void main() {")
+    out += ["    int[3] arr; arr[0] = 5; arr[1] = 15; arr[2] = 25;", "    int x = 4; int* p = &x; int* np = nullptr;",
+            '    string[3] names = ["ann", "bob", "cy"];', '    int a = 0; int b = 0; string sa = ""; string sb = "";']
+
+    def ops_stmts(k):
+        o = c["ops"][k]
+        return ["a = %s; b = %s; sa = \"%s\"; sb = \"%s\";" % (int_lit(o[0]), int_lit(o[1]), o[2], o[3])]
+    body = ["%s r = %s;" % (R, te), "match (r) {", '    Ok(b0) => { println("arm 0", b0); }', '    Err(b1) => { println("arm 1", b1); }', "}"]
+    if loop == "seq":
+        for k in range(n_it):
+            out += ["    " + l for l in ['println("it", %d);' % k] + ops_stmts(k) + body]
+    else:
+        hd = "    for (int i = 0; i < %d; i = i + 1) {" % n_it if loop == "for" else "    int i = 0;\n    while (i < %d) {" % n_it
+        out.append(hd)
+        out.append('        println("it", i);')
+        for k in range(n_it):
+            out.append("        if (i == %d) { %s }" % (k, " ".join(ops_stmts(k))))
+        out += ["        " + l for l in body]
+        if loop == "while":
+            out.append("        i = i + 1;")
+        out.append("    }")
+    out += ['    println("done");', "}"]
+    return "\n".join(out) + "\n"
+
+
+# case LQ: {"fam":"LQ","kind":"R"|"O","ctx":"decl|asg|bin|stmt|ret","opnd":"c"|"v","outs":[["k",int]|["f",payload]],"ekind","loop"}
+def line_lq(c):
+    return "\t".join(["LQ", c["kind"], c["ctx"], c["opnd"],
+                      ",".join(("k%d" % int(o[1])) if o[0] == "k" else "f" + pl_ser(o[1]) for o in c["outs"]) or "-"])
+
+
+def cb_lq(c):
+    if c["kind"] == "R":
+        R = "Result<long, %s>" % c.get("ekind", "string")
+        okv, errv = "Ok", "Err"
+    else:
+        R = "Option<long>"
+        okv, errv = "Some", "None"
+    n_it = len(c["outs"])
+    loop = c.get("loop", "for")
+    out = []
+    fb = []
+    for k, o in enumerate(c["outs"]):
+        e = cons(R, okv, ["int", str(o[1])]) if o[0] == "k" else (cons(R, errv, o[1]) if c["kind"] == "R" else "%s::None" % R)
+        fb.append(("if (x == %d) { return %s; }" % (k, e)) if k < n_it - 1 else "return %s;" % e)
+    out.append("%s f(int x) { %s }" % (R, " ".join(fb) if fb else "return %s;" % cons(R, okv, ["int", "0"])))
+
+    def stmts(ix):
+        call = "f(%s)?" % ix
+        pre = []
+        if c["opnd"] == "v":
+            pre = ["%s t = f(%s);" % (R, ix)]
+            call = "t?"
+        ctx = c["ctx"]
+        if ctx == "decl":
+            return pre + ["long v = %s;" % call, 'println("post", %s, v);' % ix]
+        if ctx == "asg":
+            return pre + ["w = %s;" % call, 'println("post", %s, w);' % ix]
+        if ctx == "bin":
+            return pre + ["long v = 0 + (%s);" % call, 'println("post", %s, v);' % ix]
+        if ctx == "ret":
+            return pre + ["return %s::%s(%s);" % (R, okv, call)]
+        return pre + ["%s;" % call, 'println("post", %s);' % ix]
+    out.append("%s g() {" % R)
+    out.append("    long w = 0;")
+    if loop == "seq":
+        for k in range(n_it):
+            out += ["    " + l for l in ['println("it", %d);' % k] + stmts(str(k))]
+    else:
+        out.append("    for (int i = 0; i < %d; i = i + 1) {" % n_it if loop == "for" else "    int i = 0;\n    while (i < %d) {" % n_it)
+        out += ["        " + l for l in ['println("it", i);'] + stmts("i")]
+        if loop == "while":
+            out.append("        i = i + 1;")
+        out.append("    }")
+    out.append("    return %s;" % cons(R, okv, ["int", "777"]))
+    out.append("}")
+    out.append("void main() {")
+    out.append("    match (g()) {")
+    if c["kind"] == "R":
+        out += ['        Ok(b0) => { println("arm 0", b0); }', '        Err(b1) => { println("arm 1", b1); }']
+    else:
+        out += ['        Some(b0) => { println("arm 0", b0); }', '        None => { println("arm 1"); }']
+    out += ["    }", '    println("after");', "}"]
+    return "\n".join(out) + "\n"
+
+
 # ------------------------------------------------------------------ running
 def to_line(c):
-    return {"A": line_a, "Q": line_q, "T": line_t, "M": line_m, "R": line_r, "S": line_s}[c["fam"]](c)
+    return {"A": line_a, "Q": line_q, "T": line_t, "M": line_m, "R": line_r, "S": line_s, "L": line_l, "LT": line_lt, "LQ": line_lq}[c["fam"]](c)
 
 
 def to_cb(c):
-    return {"A": cb_a, "Q": cb_q, "T": cb_t, "M": cb_m, "R": cb_r, "S": cb_s}[c["fam"]](c)
+    return {"A": cb_a, "Q": cb_q, "T": cb_t, "M": cb_m, "R": cb_r, "S": cb_s, "L": cb_l, "LT": cb_lt, "LQ": cb_lq}[c["fam"]](c)
 
 
 def run_models(cases):
@@ -842,7 +1327,7 @@ def run_models(cases):
 
         def obs(x):
             return {"cls": x[1], "out": [l.rstrip() for l in x[2].split("\x1f")] if len(x) > 2 and x[2] != "" else []}
-        res.append({"mech": obs(m), "spec": obs(s), "safe": f[1] == "1"})
+        res.append({"mech": obs(m), "spec": obs(s), "safe": f[1] == "1", "kinds_ok": len(f) < 3 or f[2] == "1"})
     return res
 
 
@@ -980,6 +1465,35 @@ def label(c, m):
     elif c["fam"] == "S":
         for k in c["calls"]:
             labs += label(s_item_at(c, k), None)
+    elif c["fam"] == "L":
+        direct = c["final"] in ("mk", "mkv", "cons")
+        from_call = (not direct) and (c["src"] != "cons" or any(s[0] == "dc" for s in c["steps"]))
+
+        def empty_in(v):
+            return (v[0] == "s" and v[1] == "") or (v[0] == "e" and v[2] is not None and empty_in(v[2]))
+        for v in c["vals"]:
+            k = nv_top_kind(v)
+            if empty_in(v):
+                labs.append("C13-empty-string-payload")
+            if k == "none" or not nv_good(v):
+                labs.append("C13-payloadless-variant-lost")        # at the top level, or an inner enum value written as an argument
+            if k == "str" and from_call:
+                labs.append("C13-decl-from-call-drops-string")
+            if k == "nested" and from_call:
+                labs.append("C13-decl-from-call-drops-nested-payload")
+            if k == "nested" and c["final"] in ("mk", "cons"):
+                labs.append("C13-constructor-drops-nested-payload")
+        if any(s[0] == "as" for s in c["steps"]) and not direct:
+            labs.append("C13-assign-constructor-ignored")
+    elif c["fam"] == "LT":
+        if is_sexpr(c["expr"]) and any(py_eval3(c["expr"], o[0], o[1], o[2], o[3])[0] == "" for o in c["ops"]):
+            labs.append("C13-empty-string-payload")
+    elif c["fam"] == "LQ":
+        fails = [o[1] for o in c["outs"] if o[0] == "f"]
+        if any(p == ["str", ""] for p in fails):
+            labs.append("C13-empty-string-payload")
+        if c["kind"] == "R" and c["opnd"] == "v" and any(p[0] == "str" for p in fails):
+            labs.append("C13-decl-from-call-drops-string")
     else:
         if c["ctx"] in ("asg", "asgmain"):
             labs.append("C13-try-outside-return-assignment")
@@ -1674,6 +2188,254 @@ def gen_random_s(rng):
     return s_normalise({"fam": "S", "items": items, "calls": calls})
 
 
+# ------------------------------------------------------------------ generators for the families L / LT / LQ
+NT_INT, NT_LONG, NT_STR = {"k": "int"}, {"k": "long"}, {"k": "string"}
+NT_P2 = {"k": "rec", "name": "P2", "fields": [["x", "int"], ["y", "int"]]}
+NT_P3 = {"k": "rec", "name": "P3", "fields": [["a", "long"], ["s", "string"], ["c", "int"]]}
+NT_P1 = {"k": "rec", "name": "P1", "fields": [["s", "string"]]}
+NT_RIS = {"k": "res", "t": NT_INT, "e": NT_STR}
+NT_RLI = {"k": "res", "t": NT_LONG, "e": NT_INT}
+NT_OL = {"k": "opt", "t": NT_LONG}
+NT_OS = {"k": "opt", "t": NT_STR}
+
+
+def l_types():
+    """outer types: struct payloads, enum payloads, both, depth 3, and scalar-only types (the loop forms of family A)"""
+    return [
+        {"k": "opt", "t": NT_P2},                                              # Option<P2>
+        {"k": "opt", "t": NT_RIS},                                             # Option<Result<int, string> >
+        {"k": "res", "t": NT_P3, "e": NT_OL},                                  # Result<P3, Option<long> >
+        {"k": "usr", "name": "U", "vars": [["A", NT_INT], ["P", NT_P2], ["R", NT_RIS], ["N", None]]},
+        {"k": "usr", "name": "Shape", "vars": [["S", NT_STR], ["O", NT_OS], ["Q", {"k": "res", "t": NT_P1, "e": NT_LONG}], ["Z", None]]},
+        {"k": "opt", "t": {"k": "opt", "t": NT_RLI}},                          # Option<Option<Result<long, int> > >
+        {"k": "usr", "name": "Optional", "vars": [["Key", NT_P3], ["KeyUp", {"k": "opt", "t": NT_P2}], ["K", NT_LONG], ["Ke", None]]},
+        {"k": "usr", "name": "E", "vars": [["A", NT_INT], ["B", NT_STR], ["C", NT_LONG], ["D", None]]},
+        {"k": "res", "t": NT_LONG, "e": NT_STR},
+        {"k": "opt", "t": NT_STR},
+        {"k": "gen", "name": "G", "n1": "Val", "n2": "Nil", "t": NT_P2},              # enum G<T> { Val(T), Nil } at a struct
+        {"k": "gen", "name": "Opt", "n1": "Som", "n2": "Some", "t": NT_RIS},          # ... at an enum; names near Option's own
+    ]
+
+
+def nt_values(T, salt, depth=0):
+    """candidate values of type T (every variant, several payloads), different for different salts"""
+    k = T["k"]
+    if k == "int":
+        return [["i", INT_POOL[(salt + j) % 6]] for j in range(2)]
+    if k == "long":
+        return [["i", INT_POOL[(salt + 3 * j + 1) % len(INT_POOL)]] for j in range(2)]
+    if k == "string":
+        return [["s", "%s%d" % (SAFE_STR[(salt + j) % len(SAFE_STR)], salt % 7)] for j in range(2)]
+    if k == "rec":
+        out = []
+        for j in range(2):
+            fs = []
+            for fi, (fn, ft) in enumerate(T["fields"]):
+                fs.append(nt_values({"k": ft}, salt + 5 * j + fi + 1)[0])
+            out.append(["r", fs])
+        return out
+    out = []
+    for vi, (n, t) in enumerate(nt_variants(T)):
+        if t is None:
+            out.append(["e", n, None])
+        else:
+            # top level: every candidate of the payload type (for an enum payload: each of ITS variants); below: one per variant
+            ps = nt_values(t, salt + 2 * vi + 1, depth + 1)
+            for p in (ps[:5] if depth == 0 else ps[:1] + [q for q in ps[1:] if q[0] == "e" and q[1] != ps[0][1]][:1]):
+                out.append(["e", n, p])
+    return out
+
+
+def nv_top_kind(v):
+    return "none" if v[2] is None else {"i": "int", "s": "str", "r": "nested", "e": "nested"}[v[2][0]]
+
+
+def nv_good(v, top=True):
+    """no empty string; below the top level no payload-less enum value"""
+    if v[0] == "s":
+        return v[1] != ""
+    if v[0] == "e":
+        if v[2] is None:
+            return top
+        return nv_good(v[2], False)
+    return True
+
+
+# (source, steps, final): the conforming pipelines for every payload kind with a payload first, then the ones that meet a recorded defect
+L_PIPES_OK = [("cons", [], "var"), ("cons", [["dv"]], "var"), ("cons", [["pa"]], "var"), ("cons", [["av", None]], "var"),
+              ("cons", [["ac", None]], "var"), ("cons", [], "call"), ("cons", [["dv"], ["pa"]], "call"), ("cons", [], "mkv"),
+              ("cons", [], "obs"), ("cons", [["pa"], ["dv"], ["pa"]], "var"), ("cons", [["av", None], ["dv"]], "call"),
+              ("cons", [["ov"]], "var"), ("cons", [["oc"]], "var"), ("cons", [["dv"], ["ov"], ["pa"]], "var"), ("cons", [["ov"], ["dv"]], "call")]
+L_PIPES_DEFECT = [("call", [], "var"), ("callvar", [], "var"), ("cons", [["dc"]], "var"), ("cons", [], "mk"), ("cons", [], "cons"),
+                  ("callvar", [["pa"]], "var"), ("cons", [["dv"], ["dc"]], "call")]
+LOOPS = ["for", "while", "seq"]
+
+
+def l_fill(T, steps, salt):
+    """the initial value of the fresh target of an `av` / `ac` step: a scalar-payload variant of T if there is one"""
+    cands = [(n, t) for n, t in nt_variants(T) if t is not None and t["k"] in ("int", "long", "string")]
+    out = []
+    for s in steps:
+        if len(s) > 1 and s[1] is None:
+            if cands:
+                n, t = cands[salt % len(cands)]
+                out.append([s[0], [n, nv_pl(nt_values(t, salt + 11)[0])]])
+            else:                                   # no scalar variant: declare the target from a variable instead
+                out.append(["dv"])
+        else:
+            out.append(list(s))
+    return out
+
+
+def l_full_arms(T):
+    return [["v", n, "n" if t is None else "b"] for n, t in nt_variants(T)]
+
+
+def l_case(T, pipe, vals, n, arms=None):
+    src, steps, fin = pipe
+    return {"fam": "L", "type": T, "src": src, "steps": l_fill(T, steps, n), "final": fin, "arms": arms or l_full_arms(T), "vals": vals,
+            "loop": LOOPS[n % 3], "merge": (n // 3) % 2 == 1, "argcall": (n // 6) % 3 == 2, "mutate": (n // 2) % 3 == 0}
+
+
+def l_avoid(cases):
+    """generator-side avoidance, decided by the extracted model (ModelNest.l_kinds): bindings stay in the scope of the function
+    that holds the match, and a binding name that receives two KINDS of Variable in one run (a string and then the integer 0 an
+    empty string / a dropped payload arrives as; an enum object and then an integer) meets the recorded defects
+    C13-binding-name-reuse / -string-then-int / -kept-over-integer (stale or crashing bindings) - such programs are left out,
+    unless the match runs in a callee (a `pa` step: new scope on every call). An inner payload-less enum value is never written
+    as a call `mk()` (there it survives - correct, but another path than the modelled variable argument)."""
+    cases = list(cases)
+    out = []
+    for c, m in zip(cases, run_models(cases)):
+        if c["fam"] != "L":
+            out.append(c)
+            continue
+        if any(not nv_good(v) for v in c["vals"]) and c.get("argcall"):
+            c = dict(c, argcall=False)
+        in_callee = any(s[0] == "pa" for s in c["steps"]) and c["final"] in ("var", "call", "obs", "val")
+        if m["kinds_ok"] or in_callee:
+            out.append(c)
+    return out
+
+
+def gen_loops_pairs(seed, thorough):
+    """(L1) every ordered pair (x, y) of the candidate values of every outer type, executed x, y, x by ONE loop body: every
+    declaration of the body meets the Variable of the execution before - another variant, another payload kind (struct after
+    enum after scalar after none), the same variant with another payload. Pipeline, loop form (for / while / written out),
+    merged declaration statement and argument form rotate."""
+    rot = rng_for(seed, "c13-loops-pairs").randrange(1000)
+    n = rot
+    for ti, T in enumerate(l_types()):
+        vs = [v for v in nt_values(T, seed + ti) if nv_good(v)]
+        for xi, x in enumerate(vs):
+            for yi, y in enumerate(vs):
+                if xi == yi:
+                    continue
+                n += 1
+                # the same variant again with another payload, then the other value, then the first again
+                x2 = next((v for v in nt_values(T, seed + ti + 3) if v[1] == x[1] and nv_good(v)), x)
+                vals = [x, y, x2] if n % 2 else [x, x2, y, x]
+                pipe = L_PIPES_OK[n % len(L_PIPES_OK)]
+                if any(v[2] is None for v in vals) and not thorough and pipe[1] and pipe[2] != "mkv":
+                    pipe = [("cons", [], "var"), ("cons", [["dv"]], "var"), ("cons", [], "mkv"), ("cons", [], "obs")][n % 4]
+                yield l_case(T, pipe, vals, n)
+
+
+def gen_loops_pipes(seed, thorough):
+    """(L2) every pipeline - conforming and defect-bound - for every outer type over a rotation of all its values (2-4
+    executions), in every loop form."""
+    rng = rng_for(seed, "c13-loops-pipes")
+    n = rng.randrange(1000)
+    for ti, T in enumerate(l_types()):
+        vs = [v for v in nt_values(T, seed + 2 * ti + 1) if nv_good(v)]
+        for pi, pipe in enumerate(L_PIPES_OK + L_PIPES_DEFECT):
+            for rep in range(3 if thorough else 2):
+                n += 1
+                ln = 2 + (n + rep) % 3
+                st = rng.randrange(len(vs))
+                vals = [vs[(st + j * (1 + rep)) % len(vs)] for j in range(ln)]
+                yield l_case(T, pipe, vals, n)
+
+
+def gen_random_l(rng, safe):
+    T = rng.choice(l_types())
+    vs = nt_values(T, rng.randrange(50))
+    if safe:
+        vs = [v for v in vs if nv_good(v)]
+    vals = [rng.choice(vs) for _ in range(rng.randint(2, 4))]
+    steps = []
+    for _ in range(rng.randint(0, 4)):
+        k = rng.choice(["dv", "dv", "pa", "pa", "av", "ac"] + ([] if safe else ["dc"]) + ([] if any(s[0] == "pa" for s in steps) else ["ov", "oc"]))
+        steps.append([k] if k in ("dv", "dc", "pa", "ov", "oc") else [k, None])
+    fin = rng.choice(["var", "var", "var", "call", "obs", "mkv"] + ([] if safe else ["mk", "cons"]))
+    src = "cons" if safe else rng.choice(["cons", "cons", "call", "callvar"])
+    arms = []
+    order = list(nt_variants(T))
+    rng.shuffle(order)
+    for n, t in order:
+        if rng.random() < (0.97 if safe else 0.85):
+            arms.append(["v", n, "n" if t is None else rng.choice(["b", "b", "b", "b", "u", "n"])])
+    if rng.random() < 0.25:
+        arms.insert(rng.randint(0, len(arms)), ["w"])
+    c = l_case(T, (src, steps, fin), vals, rng.randrange(36), arms)
+    if safe:
+        # payload-less values only where family A carries them: no parameter, no call in between
+        if any(v[2] is None for v in vals):
+            c["steps"] = [s for s in c["steps"] if s[0] == "dv"]
+            if c["final"] == "call":
+                c["final"] = "var"
+    return c
+
+
+LT_SITES = [["/", ["A"], ["B"]], ["%", ["A"], ["B"]], ["I", ["A"]], ["AT", ["B"]], ["DV", ["A"], ["B"]], ["+", ["I", ["A"]], ["/", ["L", 6], ["B"]]],
+            ["SI", ["A"]], ["SN", ["B"]], ["SC", ["SA"], ["SI", ["B"]]], ["SK", ["SA"], ["SB"]], ["SC", ["SN", ["A"]], ["SB"]], ["SI", ["/", ["A"], ["B"]]],
+            ["D0"], ["D1"], ["*", ["A"], ["L", 1000000]], ["SA"]]
+LT_OPS = [(1, 2), (7, 0), (0, 1), (5, 1), (2, 2), (-1, 3), (2, 0), (1, 1), (2147483647, 1)]
+
+
+def gen_loops_try(seed, thorough):
+    """(LT1) one `R r = try e;` / `checked e` statement executed 2-4 times by a loop with operands that alternate between
+    success and the different failures (Ok, Err, Ok; a string after an error text after a string)."""
+    rng = rng_for(seed, "c13-loops-try")
+    n = 0
+    for ei, e in enumerate(LT_SITES):
+        for chk in (False, True):
+            for rep in range(4 if thorough else 2):
+                n += 1
+                order = list(LT_OPS)
+                rng.shuffle(order)
+                ops = [[a, b, SAFE_STR[(ei + j + rep) % len(SAFE_STR)], SAFE_STR[(ei + 2 * j + 1) % len(SAFE_STR)]]
+                       for j, (a, b) in enumerate(order[:2 + (n % 3)])]
+                if any(py_eval3(e, o[0], o[1], o[2], o[3])[1] >= 2 ** 62 for o in ops):
+                    continue
+                yield {"fam": "LT", "checked": chk, "expr": e, "ops": ops, "loop": LOOPS[n % 3]}
+
+
+def gen_loops_qmark(seed, thorough):
+    """(LQ1) `f(i)?` executed again and again inside one function: every context x operand form x Result / Option x every
+    position of the first failure (none, first, middle, last) with Ok payloads changing from execution to execution."""
+    rng = rng_for(seed, "c13-loops-q")
+    n = 0
+    for kind in ("R", "O"):
+        for ctx in ("decl", "asg", "bin", "stmt", "ret"):
+            for opnd in ("c", "v"):
+                for ek in ("int", "string"):
+                    if kind == "O" and ek == "string":
+                        continue
+                    for ln in (2, 3, 4):
+                        for fail in [None] + list(range(ln)):
+                            n += 1
+                            if not thorough and (n + seed) % 2 and fail not in (None, ln - 1):
+                                continue
+                            outs = []
+                            for j in range(ln):
+                                if fail == j:
+                                    outs.append(["f", pick_payload(rng, ek, safe=True)])
+                                else:
+                                    outs.append(["k", int(pick_payload(rng, "long", True)[1])])
+                            yield {"fam": "LQ", "kind": kind, "ctx": ctx, "opnd": opnd, "outs": outs, "ekind": ek, "loop": LOOPS[n % 3]}
+
+
 def only_conforming(cases):
     """sequence programs are drawn from the proved fragment only (the recorded defects turn payload kinds into one another,
     which trips the binding-name defects once several matches share a program): keep the cases the model calls safe"""
@@ -1692,6 +2454,12 @@ def size(c):
         return 3 * len(c["steps"]) + len(c["arms"])
     if c["fam"] == "S":
         return 5 * len(c["calls"]) + sum(size(it) for it in c["items"])
+    if c["fam"] == "L":
+        return 4 * len(c["vals"]) + 3 * len(c["steps"]) + len(c["arms"]) + sum(len(nv_ser(v)) for v in c["vals"]) // 8
+    if c["fam"] == "LT":
+        return 3 * len(c["ops"]) + len(ex_ser(c["expr"]))
+    if c["fam"] == "LQ":
+        return 3 * len(c["outs"])
     return len(ex_ser(c["expr"]))
 
 
@@ -1761,7 +2529,36 @@ def shrink_cands(c):
                 subs = shrink_cands(it)
             for q in subs:
                 cands.append(dict(c, items=c["items"][:j] + [q] + c["items"][j + 1:]))
+    elif c["fam"] == "L":
+        if len(c["vals"]) > 1:
+            for k in range(len(c["vals"])):
+                cands.append(dict(c, vals=c["vals"][:k] + c["vals"][k + 1:]))
+        for k in range(len(c["steps"])):
+            cands.append(dict(c, steps=c["steps"][:k] + c["steps"][k + 1:]))
+        for k in range(len(c["arms"])):
+            cands.append(dict(c, arms=c["arms"][:k] + c["arms"][k + 1:]))
+        for key in ("merge", "argcall", "mutate"):
+            if c.get(key):
+                cands.append(dict(c, **{key: False}))
+        if c.get("loop", "for") != "for":
+            cands.append(dict(c, loop="for"))
+    elif c["fam"] == "LQ":
+        if len(c["outs"]) > 1:
+            for k in range(len(c["outs"])):
+                cands.append(dict(c, outs=c["outs"][:k] + c["outs"][k + 1:]))
+        if c["opnd"] == "v":
+            cands.append(dict(c, opnd="c"))
+        if c["ctx"] != "decl":
+            cands.append(dict(c, ctx="decl"))
+        if c.get("loop", "for") != "for":
+            cands.append(dict(c, loop="for"))
     else:
+        if c["fam"] == "LT":
+            if len(c["ops"]) > 1:
+                for k in range(len(c["ops"])):
+                    cands.append(dict(c, ops=c["ops"][:k] + c["ops"][k + 1:]))
+            if c.get("loop", "for") != "for":
+                cands.append(dict(c, loop="for"))
         e = c["expr"]
         if len(e) == 3 and e[0] in OPS + ["DV", "MD"]:
             cands += [dict(c, expr=e[1]), dict(c, expr=e[2])]
@@ -1886,6 +2683,15 @@ def build_cases(seed, thorough):
     for k in range(20000 if thorough else 300):
         cases.append(gen_random_r(rng_for(seed, "c13-rand-r", k), k % 2 == 0))
         origin.append("random-R-%s" % ("safe" if k % 2 == 0 else "any"))
+    # struct / enum payloads, statements executed again in one scope (loops)
+    for d in range(6 if thorough else 2):
+        add(l_avoid(gen_loops_pairs(seed * 1000 + d, thorough)), "L-value-pairs-in-one-loop")
+    for d in range(4 if thorough else 1):
+        add(l_avoid(gen_loops_pipes(seed * 1000 + d, thorough)), "L-pipelines-exhaustive")
+    add(gen_loops_try(seed, thorough), "LT-try-in-a-loop")
+    add(gen_loops_qmark(seed, thorough), "LQ-qmark-in-a-loop")
+    for par, tag in ((0, "safe"), (1, "any")):
+        add(l_avoid(gen_random_l(rng_for(seed, "c13-rand-l", k), par == 0) for k in range(par, 40000 if thorough else 700, 2)), "random-L-" + tag)
     nr = 120000 if thorough else 1200
     for k in range(nr):
         rng = rng_for(seed, "c13-rand", k)
@@ -1945,12 +2751,14 @@ def run(rep):
         key = to_line(c) + "|" + (type_name(c["type"]) if c["fam"] == "A" else "")
         if c["fam"] in ("A", "M"):
             key += "|%d|%d" % (c.get("bn", 0), c.get("body", 0))
+        if c["fam"] in ("L", "LT", "LQ"):
+            key += "|%s|%d%d%d" % (c.get("loop", "for"), c.get("merge", 0), c.get("argcall", 0), c.get("mutate", 0))
         first = key not in distinct
         distinct.add(key)
         conf = conforming(m)
         n_conf += conf
         n_safe += m["safe"]
-        if first and (m["mech"]["cls"] != "ok" or any(l not in ("after", "done", "g1") and not l.startswith(("back", "end", "call "))
+        if first and (m["mech"]["cls"] != "ok" or any(l not in ("after", "done", "g1") and not l.startswith(("back", "end", "call ", "it "))
                                                       for l in m["mech"]["out"])):
             nontrivial += 1
         if m["safe"] and not conf:
@@ -1997,7 +2805,10 @@ def run(rep):
                             "with the way of assignment rotating over 5; sequences: every ordered pair (x, y) of 38 producer classes "
                             "(try/checked int/string ok/err, ? chains Ok/Err-string/Err-int/None, constructors of Result/Option/user/generic "
                             "enums through declaration, call, parameter, return) as one program calling x, y, x; one try/checked site and one "
-                            "? chain called 6-8 times with alternating outcomes" % ((
+                            "? chain called 6-8 times with alternating outcomes; loop bodies: every ordered pair of the candidate values (every variant, "
+                            "payload kinds int / long / string / none / struct / enum / depth 3) of 12 outer types as x, y, x' in one loop; 22 pipelines x 12 types "
+                            "x 2 value rotations; 16 try/checked sites x 2 keywords x 2 operand orders; `f(i)?`: 5 contexts x 2 operand forms x Result/Option x "
+                            "2-4 executions x first failure at every position (quick: half of the inner positions)" % ((
                                 5 if thorough else 4, 3 if thorough else 2, 5 if thorough else 4,
                                 len(AB) if thorough else 4, " x 6 statement contexts" if thorough else " (statement context rotating over 4)",
                                 len(NAME_SETS), "all" if thorough else "3 (seed-chosen)") + (4 if thorough else 3,)),
@@ -2094,6 +2905,10 @@ def run(rep):
         "arm-body form or the packaging of a match into a function - that these do not matter is tested, not proved",
         "payload strings contain no quote, backslash, brace or control character; integer operands of try/checked keep every intermediate below 2^62",
         "stderr text is reduced to an error class; diagnostics printed on stderr by successful runs are ignored",
+        "loop programs: the loop form (for / while / body written out), one declaration statement per execution vs. one shared statement, the argument "
+        "form (variable / call) and the overwriting of the source variable after construction are printer parameters the model does not have - that they do "
+        "not matter is tested; a binding name receives ONE kind of Variable per run (ModelNest.l_kinds decides; recorded findings C13-binding-name-reuse, "
+        "-string-then-int, -kept-over-integer) unless the match runs in a callee; struct payloads have 1-3 scalar members",
     ]
 
 
